@@ -5,13 +5,14 @@ Traces == ndJsonDeserialize(IOEnv.TRACE_FILE)
 VARIABLES tid, verdict
 Verdict(t) ==
   LET e == Expect(t.case) o == t.obs IN
-  IF e.res # "ok" THEN (IF o.res = "err:" \o e.res THEN "ok" ELSE "payload-refusal@1")
+  \* refused: the statement does not name the error class (data or metadata error)
+  IF e.res # "ok" THEN (IF o.res \in {"err:FinamDataError", "err:FinamMetaDataError"} THEN "ok" ELSE "payload-refusal@1")
   ELSE IF o.res # "ok" THEN "payload-accepted@1"
   ELSE IF o.shape # e.shape THEN "payload-shape@1"
   ELSE IF <<o.num, o.den>> # e.val THEN "payload-value@1"
   ELSE IF o.units # e.units THEN "payload-units@1"
   ELSE IF o.masked # e.masked THEN "payload-mask@1"
-  ELSE IF o.alias # (IF t.case.st THEN "err:FinamStaticDataError" ELSE "err:FinamDataError") THEN "alias-refused@1"
+  ELSE IF ~(o.alias \in {"err:FinamStaticDataError", "err:FinamDataError", "err:FinamMetaDataError"}) THEN "alias-refused@1"
   ELSE "ok"
 Init == tid \in 1..Len(Traces) /\ verdict = Verdict(Traces[tid])
 Next == FALSE /\ UNCHANGED <<tid, verdict>>
